@@ -532,6 +532,11 @@ impl Allocator for Arena {
   }
 
   unsafe fn rewind(&self, pos: ArenaPosition) {
+    // the cursor of a read-only ARENA lives in a read-only mapping
+    if self.ro {
+      return;
+    }
+
     let header = self.header();
     let allocated = header.allocated.load(Ordering::Acquire);
     let data_offset = self.data_offset;
